@@ -170,7 +170,7 @@ MAP = [
     (S, 'ShocStandard.time_coordinate', ['Ems.timeCoordinateNamed'], ['C17']),
     # ---- transects (C18)
     (T, 'Transect.segments', ['Ems.segments', 'Ems.rawSegments'], ['C18']),
-    (T, 'Transect._intersect_polygon', ['Ems.rawSegments'], ['C18']),
+    (T, 'Transect._intersect_polygon', ['Ems.rawSegments', 'Ems.clipPathConvex', 'Ems.clipPathSimple'], ['C18']),
     (T, 'Transect.prepare_data_array_for_transect', ['Ems.transectColumns'], ['C18']),
     # ---- plotting (C19)
     (B, 'Convention.make_poly_collection', ['Ems.makePolyCollection', 'Ems.defaultClim'], ['C19']),
